@@ -280,12 +280,18 @@ func runKV(seed uint64, n int, outDir string, replay string) {
 		written := map[string]bool{}
 		nbatch := 0
 		kinds := map[string]bool{}
+		lastLen := map[string]int{}
 		for i := 0; i < length; i++ {
 			k := rc.Intn(100)
 			var line string
 			switch {
 			case k < 12:
-				line = fmt.Sprintf("put %s %s", h.Hex(kvKey(rc)), h.Hex(kvVal(rc)))
+				key, val := kvKey(rc), kvVal(rc)
+				if prev, ok := lastLen[string(key)]; ok && rc.Chance(50) {
+					val = rc.Bytes(prev) // overwrite with a value of the same length
+				}
+				lastLen[string(key)] = len(val)
+				line = fmt.Sprintf("put %s %s", h.Hex(key), h.Hex(val))
 			case k < 18:
 				line = fmt.Sprintf("del %s", h.Hex(kvKey(rc)))
 			case k < 26:
@@ -309,8 +315,13 @@ func runKV(seed uint64, n int, outDir string, replay string) {
 				line = "nb " + id
 			default:
 				id := open[rc.Intn(len(open))]
+				if written[id] && rc.Chance(35) {
+					// a written batch still replays what it wrote, whatever happened to those keys since
+					line = "replay " + id
+					break
+				}
 				if written[id] {
-					// interface contract: a written batch is reset before reuse
+					// interface contract: a written batch is reset before it takes new operations
 					line = "reset " + id
 					written[id] = false
 					tracking[id] = false
@@ -318,7 +329,9 @@ func runKV(seed uint64, n int, outDir string, replay string) {
 				}
 				switch j := rc.Intn(100); {
 				case j < 35:
-					line = fmt.Sprintf("bput %s %s %s", id, h.Hex(kvKey(rc)), h.Hex(kvVal(rc)))
+					key, val := kvKey(rc), kvVal(rc)
+					lastLen[string(key)] = len(val)
+					line = fmt.Sprintf("bput %s %s %s", id, h.Hex(key), h.Hex(val))
 				case j < 50:
 					line = fmt.Sprintf("bdel %s %s", id, h.Hex(kvKey(rc)))
 				case j < 60:
